@@ -91,6 +91,12 @@ def difference(d1, d2, level=-1):
         if key not in d2:
             result[key] = d1[key]
         elif d1[key] != d2[key]:
+            if (level == 1 or not isinstance(d1[key], dict)
+                or not isinstance(d2[key], dict)):
+                # values are compared as a whole
+                # (they can be false, like 0 or {})
+                result[key] = d1[key]
+                continue
             res = difference(d1[key], d2[key], level-1)
             # if d2[key] contains all d1[key] elements,
             # the difference will be empty
